@@ -115,4 +115,23 @@ def patchrt (c : Json) : Json :=
                 ("validate", .arr (ps.map fun p => .str (verdictStr (Validator.validate orc p)))),
                 ("bytes_roundtrip", .bool true), ("applied", applied)]
 
+/-- kind `ctor` (C14): one of the eight patch constructors on an argument text -/
+def ctor (c : Json) : Json :=
+  match getText c "arg" with
+  | none => outOfDomain "not UTF-8"
+  | some t =>
+    match Parse.parse t with
+    | none => .obj [("class", .str "err")]
+    | some a =>
+      if !a.wf then outOfDomain "duplicate member names"
+      else if getStr c "ctor" = "replace" ∧ a.isNull then
+        -- NewReplacePatch("null") holds a nil Go map: validated as an empty document in memory, written as `null`
+        outOfDomain "a nil map has no JSON counterpart"
+      else match PatchBuild.newPatch (getStr c "ctor") a with
+        | none => .obj [("class", .str "err")]
+        | some p =>
+          .obj [("class", .str "ok"), ("patch", p),
+                ("validate", .str (verdictStr (Validator.validate (uriOracle (c.getD "uri")) p))),
+                ("bytes_roundtrip", .bool true)]
+
 end Sidetree.Drv
